@@ -22,4 +22,33 @@ PROPS = {
     },
 }
 
+COMMON_SEQ = [
+    "bounded alphabets: verdicts hold for the enumerated rows, conditions, trees, layouts and configurations only",
+    "the reference walker (encoding/json token stream) is the trusted statement of the documented search semantics; rows with empty object keys are decided by the unpruned-layout differential only",
+    "plain build: Go map order and sync.Pool reuse are the runtime's; every oracle is order-insensitive and failing cases must reproduce on five re-runs before they are reported",
+]
+
+def _seq(pid, title, text, note, technique, level="exploration", mode=None, extra_parts=None, budget=None):
+    parts = [{"engine": "seq", "mode": mode or pid}] + (extra_parts or [])
+    PROPS[pid] = {"title": title, "level": level, "technique": technique, "parts": parts,
+                  "budget": budget or {"quick": 90, "thorough": 1200}, "text": text, "note": note,
+                  "design_ref": "§5 " + pid + ", §2.3", "assumptions": COMMON_SEQ}
+
+_seq("C01", "no false negatives",
+     "bounded-exhaustive enumeration of (row x condition x layout) and expression/prefilter trees on the real engine, compared with an independent reference walker and with the engine's own answer on a layout whose filters cannot prune",
+     "finite alphabets (≈600 rows incl. unicode/dotted/metachar/empty keys, raw JSON, every Go numeric kind; ≈4000 atomic conditions; 4 tokenizers; 4 layout families quick / 30+ thorough incl. merges and an external writer)",
+     "bounded-exhaustive input and history enumeration against a reference model (explicit enumeration, no sampling)")
+_seq("C02", "exact results",
+     "same enumeration as C01 with the exactness oracle: result multiset ⊆ stored, reference-verified rows, equality without prefilter and the whole-block union rule with prefilter",
+     "as C01; rows with duplicate raw-JSON keys are identified with their stored row (their materialisation is C03's subject)",
+     "bounded-exhaustive input and history enumeration against a reference model (explicit enumeration, no sampling)")
+_seq("C23", "statistics account for every block once",
+     "per-block accounting rules evaluated on the Stats of every query of the C01 enumeration, against block contents read back through the public helpers",
+     "fault-free completions only in this part; accounting under read faults is explored by the fault-enumeration part when present",
+     "bounded-exhaustive enumeration of queries x layouts with an accounting oracle")
+_seq("C24", "pruning is effective",
+     "every query of the C01 enumeration runs over a recording DataStore; opens and read extents are compared with the pruning the stored filters and prefilter metadata imply",
+     "expected pruning is computed from the stored filters themselves (independent filter evaluator, fail-open on absent filters) and the public EvaluateDataBlockMetadata",
+     "bounded-exhaustive enumeration of queries x layouts with a recording store")
+
 NOT_YET = {}
